@@ -34,6 +34,117 @@ def calls_of(s):
     return [("call", short_callee(e[1])) + tuple(show(norm(a)) for a in e[2]) for e in s.events if e[0] == "call"]
 
 
+CACHE_MAP = "std::collections::BTreeMap<std::string::String, value::Value>"
+CACHE_REF = "&mut " + CACHE_MAP
+
+
+def cache_touch_sites(f, uf_call):
+    """calls of non-local functions that receive the cache object, in bodies other than UserFunctions::call
+    (local taint: the cache is a parameter / captured variable / struct field of type &mut BTreeMap<String, Value>,
+    or an owned map whose &mut is handed to a crate-local function; copies, moves and reborrows propagate)"""
+    from mir import callee_of
+    sites = []
+    bodies_with_cache = 0
+
+    def root_of(d):
+        while f.bodies.get(d, {}).get("parent"):
+            d = f.bodies[d]["parent"]
+        return d
+
+    # helpers that only UserFunctions::call (or another such helper) calls belong to it
+    callers = {}
+    for d, b in f.bodies.items():
+        for blk in b["blocks"]:
+            t = blk["term"]
+            if t["k"] == "call":
+                c = callee_of(t)
+                p_ = c and (c.get("resolved") or c["path"])
+                if p_ in f.bodies:
+                    callers.setdefault(root_of(p_), set()).add(root_of(d))
+    exempt = {uf_call}
+    grew = True
+    while grew:
+        grew = False
+        for g, cs in callers.items():
+            if g not in exempt and cs and cs <= exempt:
+                exempt.add(g)
+                grew = True
+    for d, b in f.bodies.items():
+        owner = b.get("parent") or d
+        root = d
+        while f.bodies.get(root, {}).get("parent"):
+            root = f.bodies[root]["parent"]
+        nloc = len(b["locals"])
+        tys = [f.ty_s(l["ty"]) for l in b["locals"]]
+        tainted = set(i for i in range(1, b["arg_count"] + 1) if tys[i] == CACHE_REF)
+
+        def place_tainted(pl):
+            if pl["l"] in tainted:
+                return True
+            for e in pl["p"]:
+                if e[0] == "field" and len(e) > 2 and f.ty_s(e[2]) == CACHE_REF:
+                    return True
+            return False
+
+        # owned maps whose &mut goes to a crate-local callee
+        refs_of = {}
+        for blk in b["blocks"]:
+            for st in blk["stmts"]:
+                if st["k"] == "assign" and st["rv"]["k"] == "ref" and st["rv"].get("bk") == "mut" and not st["rv"]["place"]["p"]:
+                    src = st["rv"]["place"]["l"]
+                    if tys[src] == CACHE_MAP and not st["place"]["p"]:
+                        refs_of.setdefault(st["place"]["l"], src)
+        owned = set()
+        changed = True
+        while changed:
+            changed = False
+            for blk in b["blocks"]:
+                for st in blk["stmts"]:
+                    if st["k"] != "assign" or st["place"]["p"]:
+                        continue
+                    rv = st["rv"]
+                    dst = st["place"]["l"]
+                    src_pl = None
+                    if rv["k"] == "use" and rv["op"]["k"] in ("move", "copy"):
+                        src_pl = rv["op"]["place"]
+                    elif rv["k"] == "ref":
+                        src_pl = rv["place"]
+                    elif rv["k"] == "cast" and rv.get("op", {}).get("k") in ("move", "copy"):
+                        src_pl = rv["op"]["place"]
+                    if src_pl is not None and dst not in tainted and (place_tainted(src_pl) or (rv["k"] == "ref" and not src_pl["p"] and src_pl["l"] in owned)):
+                        tainted.add(dst)
+                        changed = True
+                t = blk["term"]
+                if t["k"] == "call":
+                    c = callee_of(t)
+                    local = bool(c and (c.get("resolved_local", c.get("local"))) and ((c.get("resolved") or c["path"]) in f.bodies))
+                    for a in t["args"]:
+                        if a["k"] in ("move", "copy") and not a["place"]["p"] and a["place"]["l"] in refs_of and local:
+                            if refs_of[a["place"]["l"]] not in owned:
+                                owned.add(refs_of[a["place"]["l"]])
+                                changed = True
+        for l, src in refs_of.items():
+            if src in owned:
+                tainted.add(l)
+        if tainted:
+            bodies_with_cache += 1
+        if root in exempt:
+            continue
+        for blk in b["blocks"]:
+            t = blk["term"]
+            if t["k"] != "call" or blk.get("cleanup"):
+                continue
+            c = callee_of(t)
+            if not c:
+                continue
+            local = bool(c.get("resolved_local", c.get("local"))) and ((c.get("resolved") or c["path"]) in f.bodies)
+            if local:
+                continue
+            if any(a["k"] in ("move", "copy") and place_tainted(a["place"]) for a in t["args"]):
+                sites.append("%s calls %s at %s" % (d, short_callee(c.get("resolved_full") or c["full"]), t.get("span")))
+    return sorted(set(sites)), bodies_with_cache
+
+
 def run(res, f, tier):
     obligations = discharged = 0
 
@@ -175,6 +286,12 @@ def run(res, f, tier):
                 if c and (c.get("resolved") or c["path"]) == uf_call:
                     callers.add(b.get("parent") or d)
     ob(callers == {rs_call}, "C11|single-route", "UserFunctions::call must be reached only through RuleSet::call_function: %s" % sorted(callers))
+    # who may touch the cache: outside UserFunctions::call the cache object is only handed on to crate-local functions;
+    # no other body reads or writes it (a second, differently keyed use of the same map breaks "per argument")
+    touch, roots_seen = cache_touch_sites(f, uf_call)
+    ob(not touch, "C11|cache-access", "the function cache is read or written outside UserFunctions::call: %s" % touch[:4], {"sites": touch[:10]})
+    if roots_seen < 4:
+        raise Inconclusive("the cache object was found in only %d bodies (expected its route through at least 4)" % roots_seen)
     res.coverage = {
         "explanation": "All %d paths of UserFunctions::call's coroutine body were enumerated with their ordered cache/user calls and conditions and checked against the "
                        "transparency rules; the cache object's route from its two creation sites down to UserFunctions::call was checked function by function." % len(paths),
